@@ -213,3 +213,18 @@ where
       | some false => some false
 
 end Rt
+
+/-! builder R: `for i in lo..hi { body }` over an integer range, the loop-carried variables threaded through the
+body (`none` = a panic inside the body). -/
+namespace Rt
+
+def forRangeM {σ} (lo hi : Int) (f : Int → σ → Option σ) (s : σ) : Option σ := go (hi - lo).toNat lo s
+where
+  go : Nat → Int → σ → Option σ
+    | 0, _, s => some s
+    | n + 1, i, s =>
+      match f i s with
+      | none => none
+      | some s' => go n (i + 1) s'
+
+end Rt
